@@ -163,17 +163,14 @@ func handle(toks []string) string {
 		if toks[0] == "mwalk" {
 			opts = append(opts, gtree.WithMassive(context.Background()))
 		}
-		fail := -1
-		if toks[5] != "-" {
-			fmt.Sscanf(toks[5], "%d", &fail)
-		}
+		fail := parseFail(toks[5])
 		var vs []visitRec
 		i := 0
 		cb := func(wn *gtree.WalkerNode) error {
 			vs = append(vs, recVisit(wn))
 			i++
 			if i-1 == fail {
-				return errInjectedCallback
+				return cbErr
 			}
 			return nil
 		}
